@@ -631,7 +631,7 @@ class SimPopen(_REAL_POPEN):
                 s.inside -= 1
             msg = f.get("stderr", "objdump: simulated failure")
             if kind == "killed":
-                script = 'cat "$1"; echo "$2" >&2; kill -9 $$'
+                script = 'cat "$1"; echo "$2" >&2; kill -' + str(f.get("signal", "9")) + ' $$'
                 ev["res"] = f"killed stdout={len(payload)}/{len(out)}"
             else:
                 code = int(f.get("code", 1))
